@@ -2,6 +2,7 @@ package props
 
 import (
 	"fmt"
+	"go/constant"
 	"go/token"
 	"strings"
 
@@ -318,6 +319,134 @@ func runC05(c *eng.Ctx) {
 		if total < 4 {
 			c.Undecided("expected >= 4 page/slot pairs, found %d", total)
 		}
+	})
+
+	// ---- 3d. the cached index page is the page of the sequence being written ----------------------------------------------------------
+	c.Rule("GUARD", qPersist+"{cached index page = page of the sequence}", func() {
+		nv, ok := p.ConstInt64("pkg/queue", "indexItemsPerPage")
+		if !ok {
+			c.Undecided("constant pkg/queue.indexItemsPerPage not found")
+		}
+		f := c.Fn(qPersist)
+		isPage := func(v ssa.Value) bool {
+			bo, ok := eng.Unwrap(v).(*ssa.BinOp)
+			if !ok || bo.Op != token.QUO {
+				return false
+			}
+			k, isC := eng.ConstInt(bo.Y)
+			return isC && k == nv
+		}
+		isCached := func(v ssa.Value) bool {
+			in, ok := eng.Unwrap(v).(ssa.Instruction)
+			return ok && eng.LoadField(qT+".indexPageIndex")(p, in)
+		}
+		same := eng.EdgesWithFact(f, func(ft eng.Fact) bool {
+			return ft.Op == "eq" && (isPage(ft.X) && isCached(ft.Y) || isPage(ft.Y) && isCached(ft.X))
+		})
+		var sw []eng.Site
+		for _, st := range p.Sites(f, eng.StoreField(qT+".indexPageIndex")) {
+			if isPage(st.Instr.(*ssa.Store).Val) {
+				sw = append(sw, st)
+			}
+		}
+		puts := c.Some(f, invokeOn(".indexPage", "PutUint64", "PutUint32"), "q.indexPage.PutUintNN(entry)")
+		for i, pu := range puts {
+			_, stale := eng.PathExists(eng.PathQuery{Fn: f, Target: func(in ssa.Instruction) bool { return in == pu.Instr },
+				Blocked: func(in ssa.Instruction) bool { return instrIn(in, sw) }, Edge: eng.ForbidEdges(same)})
+			c.Check(!stale, fmt.Sprintf("entry-into-the-page-of-its-sequence[%d]", i), pu.Instr, f,
+				"an index entry is written into the cached index page only when the cached page index EQUALS seq / indexItemsPerPage, or right after the cache was switched to that page (the appended sequence can also move backwards: SetAppendedSeq)",
+				"a path reaches the write with a cached page that was neither compared equal to the page of the sequence nor switched to it")
+		}
+	})
+
+	// ---- 3e. a mapped data page is at least as large as the position at which alloc rolls over -------------------------------------
+	c.Rule("GUARD", "pkg/queue.NewQueue{data page size >= roll-over threshold}", func() {
+		dps, ok := p.ConstInt64("pkg/queue", "dataPageSize")
+		if !ok {
+			c.Undecided("constant pkg/queue.dataPageSize not found")
+		}
+		// the threshold alloc and Put are written against is that constant
+		for _, fk := range []string{qAlloc, qPut} {
+			g := c.Fn(fk)
+			n := 0
+			for _, b := range eng.BlocksT(g) {
+				for _, in := range b.Instrs {
+					if bo, ok := in.(*ssa.BinOp); ok && (bo.Op == token.GTR || bo.Op == token.LSS || bo.Op == token.GEQ || bo.Op == token.LEQ) {
+						if k, isC := eng.ConstInt(bo.Y); isC && k == dps {
+							n++
+						}
+						if k, isC := eng.ConstInt(bo.X); isC && k == dps {
+							n++
+						}
+					}
+				}
+			}
+			c.Check(n > 0, fk+":limit-is-dataPageSize", nil, g, fk+" bounds a message / the write cursor by the constant dataPageSize", "no comparison with dataPageSize found")
+		}
+		f := c.Fn("pkg/queue.NewQueue")
+		var mk *ssa.Call
+		for _, s := range c.Some(f, eng.CallTo("var:pkg/queue.newPageFactoryFunc"), "newPageFactoryFunc(dir, size)") {
+			a := eng.CallArgs(s.Instr.(*ssa.Call))
+			if eng.DependsOn(a[0], func(x ssa.Value) bool {
+				k, ok := x.(*ssa.Const)
+				return ok && k.Value != nil && strings.Trim(k.Value.ExactString(), "\"") == "data"
+			}) {
+				mk = s.Instr.(*ssa.Call)
+			}
+		}
+		if mk == nil {
+			c.Undecided("the data page factory (directory \"data\") is not created in NewQueue")
+		}
+		size := eng.Unwrap(eng.CallArgs(mk)[1])
+		for {
+			if cv, ok := size.(*ssa.Convert); ok {
+				size = eng.Unwrap(cv.X)
+				continue
+			}
+			break
+		}
+		if k, isC := eng.ConstInt(size); isC {
+			c.Check(k >= dps, "mapped-size-covers-the-threshold", mk, f, "data pages are mapped with at least dataPageSize bytes", fmt.Sprintf("constant %d", k))
+			return
+		}
+		isLoad := func(v ssa.Value) bool {
+			in, ok := eng.Unwrap(v).(ssa.Instruction)
+			return ok && eng.LoadField(qT+".pageSize")(p, in)
+		}
+		isK := func(v ssa.Value) bool { k, ok := eng.ConstInt(v); return ok && k >= dps }
+		if isLoad(size) {
+			// the field holds the configured value; it is raised to the constant unless it was compared not-smaller
+			okEdges := eng.EdgesWithFact(f, func(ft eng.Fact) bool {
+				return (ft.Op == "le" || ft.Op == "lt" || ft.Op == "eq") && isK(ft.X) && isLoad(ft.Y) || ft.Op == "eq" && isK(ft.Y) && isLoad(ft.X)
+			})
+			var raise, other []eng.Site
+			for _, st := range p.Sites(f, eng.StoreField(qT+".pageSize")) {
+				if isK(st.Instr.(*ssa.Store).Val) {
+					raise = append(raise, st)
+				} else {
+					other = append(other, st)
+				}
+			}
+			_, small := eng.PathExists(eng.PathQuery{Fn: f, Target: func(in ssa.Instruction) bool { return in == ssa.Instruction(mk) },
+				Blocked: func(in ssa.Instruction) bool { return instrIn(in, raise) }, Edge: eng.ForbidEdges(okEdges)})
+			late := false
+			for _, o := range other {
+				for _, r := range raise {
+					if _, again := eng.Reaches(f, r.Instr, []eng.Site{o}, nil); again {
+						late = true
+					}
+				}
+			}
+			c.Check(!small && !late, "mapped-size-covers-the-threshold", mk, f,
+				"data pages are mapped with the CLAMPED page size (>= dataPageSize): alloc keeps writing into a page up to dataPageSize whatever size was configured",
+				"a path reaches the creation of the data page factory with q.pageSize neither raised to dataPageSize nor compared >= dataPageSize")
+			return
+		}
+		facts := p.MustFacts(f)
+		kc := ssa.NewConst(constant.MakeInt64(dps), size.Type())
+		c.Check(facts.Prove("le", kc, size, mk), "mapped-size-covers-the-threshold", mk, f,
+			"data pages are mapped with a size that is provably >= dataPageSize: alloc keeps writing into a page up to dataPageSize whatever size was configured",
+			"size argument "+p.Desc(size)+" is not provably >= dataPageSize; facts: "+strings.Join(facts.Render(facts.At(mk)), " ; "))
 	})
 
 	// ---- 4. LAYOUT: index entry and meta page, writer/reader agreement -----------------------
